@@ -45,6 +45,7 @@ import (
 	netpkg "github.com/fatedier/frp/pkg/util/net"
 	"github.com/fatedier/frp/pkg/util/tcpmux"
 	"github.com/fatedier/frp/pkg/util/util"
+	"github.com/fatedier/frp/pkg/util/verifhook"
 	"github.com/fatedier/frp/pkg/util/version"
 	"github.com/fatedier/frp/pkg/util/vhost"
 	"github.com/fatedier/frp/pkg/util/xlog"
@@ -598,10 +599,13 @@ func (svr *Service) RegisterControl(ctlConn net.Conn, loginMsg *msg.Login, inter
 		// don't return detailed errors to client
 		return fmt.Errorf("unexpected error when creating new controller")
 	}
+	verifhook.At("ctl.beforeAdd", loginMsg.RunID, loginMsg.Hostname)
 	if oldCtl := svr.ctlManager.Add(loginMsg.RunID, ctl); oldCtl != nil {
+		verifhook.At("ctl.beforeWait", loginMsg.RunID, loginMsg.Hostname)
 		oldCtl.WaitClosed()
 	}
 
+	verifhook.At("ctl.beforeStart", loginMsg.RunID, loginMsg.Hostname)
 	ctl.Start()
 
 	// for statistics
@@ -610,7 +614,9 @@ func (svr *Service) RegisterControl(ctlConn net.Conn, loginMsg *msg.Login, inter
 	go func() {
 		// block until control closed
 		ctl.WaitClosed()
+		verifhook.At("ctl.beforeDel", loginMsg.RunID, loginMsg.Hostname)
 		svr.ctlManager.Del(loginMsg.RunID, ctl)
+		verifhook.At("ctl.afterDel", loginMsg.RunID, loginMsg.Hostname)
 	}()
 	return nil
 }
